@@ -221,8 +221,15 @@ class ACSE:
                     "secondary_field": req.secondary_field,
                 },
             )
-        except NotImplementedError:
+        except NotImplementedError as exc:
             setattr(self.assoc, "abort", self.assoc._abort_blocking)
+            handler = self.assoc.get_handlers(evt.EVT_USER_ID)
+            if handler and handler[0] is not evt.get_default_handler(evt.EVT_USER_ID):
+                # The user's own handler raised, so reject the association
+                LOGGER.error("Exception in handler bound to 'evt.EVT_USER_ID'")
+                LOGGER.exception(exc)
+                return False, None
+
             # If the user hasn't implemented identity negotiation then
             #   default to accepting the association
             return True, None
